@@ -9,6 +9,8 @@ import importlib.util
 import sys
 import types
 
+from vlib import fakeos
+
 import supp.project as sp
 from supp.project import Project
 from supp.util import split_pkg, join_pkg
@@ -45,6 +47,7 @@ class FakeOS(object):
     def __init__(self, files):
         self.files = files
         self.path = FakePath(files)
+        fakeos.complete(self, self.path)
 
     def listdir(self, d):
         out = []
